@@ -55,7 +55,9 @@ PROPS["C06"] = {
              "Exhaustive part: every feature absent or at exactly one place, n = 1..3 devices, every device order, every released version "
              "(29 declared strings incl. unreleased ones on 1/8 of the Specs). Rapid part: n <= 4, arbitrary subsets of places, random "
              "declared strings; the featured list element is placed behind 0..2 plain elements (and before one) of the same list, digit-first "
-             "names are also generated as one-character names. Oracle: model.RequiredVersion (max over the introduction versions of the statement) and 'released and >= "
+             "names are also generated as one-character names; every feature comes in several spellings (intelRdt with a class, empty, only "
+             "enableCMT / enableMBM, only one schema; additional gid 5 / 0 / 2^32-1; mount type tmpfs / bind / blank / none; hostPath other than, "
+             "equal to the path, relative). Oracle: model.RequiredVersion (max over the introduction versions of the statement) and 'released and >= "
              "minimum'; metamorphic: device permutations give the same minimum; ReadSpec on a file agrees (1/16..1/64 of cases). "
              "Non-trivial iff >= 2 devices and a feature sits in a device that is not last in the order; distinct = distinct (placement, order, declared)."),
     "exhaustive_part": "all 2^7 feature subsets x all single placements for 1..3 devices x all device orders x all 7 released versions",
@@ -152,7 +154,8 @@ PROPS["C09"] = {
              "directory lists the same devices with equal definitions. The dictionary unit places every dictionary string (5 embeddings) "
              "in all string fields at once. A Spec refused by WriteSpec is not a C09 case (counted under label rejected-for-writing). "
              "concurrent unit (race-detector build): 2..6 goroutines each write their own generated Spec 3..20 times into their own "
-             "directory through their own cache at the same time; every writer's round trip must hold. "
+             "directory through their own cache at the same time; every writer's round trip must hold; then two of them publish under ONE "
+             "name in one directory, in both encodings: whatever is published in the end must read back as exactly one of the two Specs. "
              "Non-trivial iff some string is outside [A-Za-z0-9_./=-]* or an integer extreme is present; distinct = distinct Specs."),
     "assumptions": ["strings are valid UTF-8 (the statement's domain)", "canonical image = encoding/json of specs.Spec (nil and empty lists equal)"],
     "manifest": {
@@ -178,7 +181,7 @@ PROPS["C01"] = {
              "kinds from 3 vendors x 2 classes, 1..3 devices out of 3 names, each device carrying a marker naming its file), invalid Spec "
              "files (syntax, semantic, empty), non-Spec names (x.txt, x.yml, x.json.bak, ...), named pipes and sockets under non-Spec names that sort before, between and after the Spec files, subdirectories (also named sub.json) holding "
              "valid Specs; half of the layouts get a scenario overlay for one name (shadowed, conflict at top, conflict below a unique "
-             "higher definition, three-way, only-invalid on top, conflicts on both levels). Actions: put valid / invalid / ignored-name "
+             "higher definition, three-way, only-invalid on top, conflicts on both levels). Actions: rename a Spec file to a name the scan ignores or move it out, put valid / invalid / ignored-name "
              "file (new or overwrite), remove file, remove directory, create missing directory; after every action Refresh() on the same "
              "cache (manual unit) or polling of the query API for at most 10 s (auto unit: put by rename and remove only). Oracle after "
              "every step: layout.Resolve (last-listed directory defining the name must define it in exactly one valid file) against "
@@ -540,7 +543,8 @@ PROPS["C11"] = {
 
 PROPS["C10"] = {
     "level": "fault_enumeration",
-    "rule": ("For each generated (new Spec, encoding json/yaml, initial state in {no directory, empty directory, previous file with other valid "
+    "rule": ("For each generated (new Spec, encoding json/yaml, file name - plain, or with the text of a Spec extension or of the temporary suffix "
+             "before the real extension, as names generated for dotted vendor domains have -, initial state in {no directory, empty directory, previous file with other valid "
              "content, previous file plus bystander files}): syscalls unit - the helper `vhelper write` (main goroutine locked to the main "
              "thread) runs under strace; a calibration run on exactly that initial state lists every system call of the writer that touches "
              "the Spec directory (by path or through a descriptor opened there: newfstatat, mkdirat, openat, write, close, openat dir, "
@@ -687,7 +691,8 @@ PROPS["C08"] = {
              "known-good file with a fresh device name, which must resolve within 10 s (the goroutine survived). Oracle: no panic (recovered "
              "per entry point; a panic in the watcher goroutine kills the process and is attributed through the saved current input), "
              "every entry point returns within a 20 s watchdog (re-run once alone before calling it a hang), malformed input yields an "
-             "error. Global state (Spec validator, current schema) is reset at the top of every case. Thorough tier adds native fuzzing "
+             "error. Global state (Spec validator, current schema) is reset at the top of every case, the validator reset itself under the "
+             "watchdog (a lock leaked by the previous input shows there). Thorough tier adds native fuzzing "
              "of the same two oracles. Non-trivial iff the input passes tokenisation (it reaches unmarshalling or validation); distinct = "
              "distinct (content, extension)."),
     "assumptions": ["'hang' = no return within 20 s on inputs <= 64 KiB", "host device nodes named by fuzzed Specs are looked up on the real host; only crashes and hangs are judged there"],
